@@ -210,11 +210,11 @@ class _Walker:
                 else:
                     head = ('while', T.truth(self.ev.expr(s.test, fr)))
                 self.depth += 1
-                body_recs, env_b, _ = self.walk(s.body, fr.env, facts)
+                body_recs, env_b, facts_b = self.walk(s.body, fr.env, facts)
                 else_recs, _, _ = self.walk(s.orelse, dict(env_loop), facts) if s.orelse else ([], None, None)
                 self.depth -= 1
                 out_state = [env_b.get(n) for n in carried]
-                recs.append(('loop', head, init, body_recs, out_state, else_recs))
+                recs.append(('loop', head, init, body_recs, out_state, else_recs, tuple(facts_b) if facts_b is not None else ()))
                 for i, n in enumerate(carried):
                     env[n] = T.sym('$OUT%d_%d' % (lid, i))
                 for n in tnames:
@@ -331,11 +331,53 @@ def _minbytes(t):
             other = n[3] if n[2] == T.const(1) else n[2]
             if nbytes(other, x):
                 return T.raw_op('MINBYTES', x, T.const(1))
+        # `(x.bit_length() + 7) // 8 or 1`
+        if T.tag(n) == 'phi' and n[3] == T.const(1) and nbytes(n[2], x) and n[1] == T.truth(n[2]):
+            return T.raw_op('MINBYTES', x, T.const(1))
     return None
 
 
 def _single_char(x):
     return x is not None and T.tag(x) == 'sym' and T.sym_meta(x, 'type') == 'str' and T.sym_meta(x, 'len') == 1
+
+
+def _norm_pred(var, pred):
+    """A predicate on one element that is a case analysis over `var == constant` tests, as the disjunction of the accepted
+    constants (or the negation of the refused ones): `x in 'abc'`, `TABLE.get(x) is not None`, `x == 'a' or x == 'b'`."""
+    consts = []
+    for x in T.walk(pred):
+        if T.is_op(x, 'EQ') and len(x) == 4 and var in x[2:]:
+            o = x[2] if x[3] == var else x[3]
+            if T.is_const(o) and o not in consts:
+                consts.append(o)
+            elif not T.is_const(o):
+                return pred
+    if not consts or len(consts) > 64:
+        return pred
+    if any(T.tag(x) == 'sym' and x == var for x in T.walk(T.subst(pred, {T.eq(var, k): T.TRUE for k in consts}))):
+        return pred         # the element is used in some other way as well
+    yes, no = [], []
+    for k in consts:
+        facts = {T.eq(var, k)} | {T.not_(T.eq(var, k2)) for k2 in consts if k2 != k}
+        v = T.truth(T.assume(pred, facts))
+        if v == T.TRUE:
+            yes.append(k)
+        elif v == T.FALSE:
+            no.append(k)
+        else:
+            return pred
+    rest = T.truth(T.assume(pred, {T.not_(T.eq(var, k)) for k in consts}))
+    if rest == T.FALSE:
+        out = T.FALSE
+        for k in yes:
+            out = T.or_(out, T.eq(var, k))
+        return out
+    if rest == T.TRUE:
+        out = T.FALSE
+        for k in no:
+            out = T.or_(out, T.eq(var, k))
+        return T.not_(out)
+    return pred
 
 
 def canon(t, _memo=None):
@@ -346,6 +388,11 @@ def canon(t, _memo=None):
     if id(t) in memo:
         return memo[id(t)][1]
     k = T.tag(t)
+    if k == 'op' and t[1] == 'MAP' and len(t) == 7 and T.tag(t[2]) == 'sym' and not _single_char(t[2]) \
+            and (T.type_of(t[4]) == 'str' or (T.is_op(t[4], 'SLICE') and T.type_of(t[4][2]) == 'str')):
+        # the elements of a string are its characters: the element variable is a one-character string
+        v2 = T.sym(t[2][1], type='str', len=1)
+        t = ('op', 'MAP', v2, T.subst(t[3], {t[2]: v2}), t[4], T.subst(t[5], {t[2]: v2}) if isinstance(t[5], tuple) else t[5], t[6])
     if k == 'op':
         r = ('op', t[1]) + tuple(canon(x, memo) if isinstance(x, tuple) else x for x in t[2:])
         m = _minbytes(r)
@@ -358,6 +405,8 @@ def canon(t, _memo=None):
                 for ch in r[3][1]:
                     out = T.or_(out, T.eq(r[2], T.const(ch)))
                 r = out
+            elif False:
+                pass
             elif r[1] == 'INDEX' and T.is_const(r[2]) and isinstance(r[2][1], str) and 0 < len(r[2][1]) <= 64:
                 out = T.raise_('ValueError')
                 seen = set()
@@ -365,6 +414,36 @@ def canon(t, _memo=None):
                     if r[2][1].index(ch) == i_:
                         out = T.phi(T.eq(r[3], T.const(ch)), T.const(i_), out)
                 r = out
+        if r[1] == 'FIND' and len(r) == 4 and T.is_const(r[2]) and isinstance(r[2][1], str) and 0 < len(r[2][1]) <= 64 and _single_char(r[3]):
+            out = T.const(-1)
+            for i_, ch in reversed(list(enumerate(r[2][1]))):
+                if r[2][1].index(ch) == i_:
+                    out = T.phi(T.eq(r[3], T.const(ch)), T.const(i_), out)
+            r = out
+        # quantifiers over a comprehension: one canonical spelling (ALL), so that `None in [TABLE.get(x) for x in s]`,
+        # `any(x not in SET for x in s)` and `not all(x in SET for x in s)` are the same condition
+        if r[1] == 'IN' and len(r) == 4 and r[2] == T.NONE and T.is_op(r[3], 'MAP') and r[3][5] == T.TRUE:
+            m = r[3]
+            r = ('op', 'ANY', ('op', 'MAP', m[2], T.is_(m[3], T.NONE), m[4], m[5], m[6]))
+        if r[1] == 'ANY' and len(r) == 3 and T.is_op(r[2], 'MAP'):
+            m = r[2]
+            r = T.not_(('op', 'ALL', ('op', 'MAP', m[2], T.not_(T.truth(m[3])), m[4], m[5], m[6])))
+        elif r[1] == 'ALL' and len(r) == 3 and T.is_op(r[2], 'MAP'):
+            m = r[2]
+            r = ('op', 'ALL', ('op', 'MAP', m[2], T.truth(m[3]), m[4], m[5], m[6]))
+        if T.is_op(r, 'NOT') and T.is_op(r[2], 'ALL') and T.is_op(r[2][2], 'MAP'):
+            m = r[2][2]
+            r = T.not_(('op', 'ALL', ('op', 'MAP', m[2], _norm_pred(m[2], m[3]), m[4], m[5], m[6])))
+        elif T.is_op(r, 'ALL') and len(r) == 3 and T.is_op(r[2], 'MAP'):
+            m = r[2]
+            r = ('op', 'ALL', ('op', 'MAP', m[2], _norm_pred(m[2], m[3]), m[4], m[5], m[6]))
+        if r[1] == 'GETITEM' and len(r) == 4 and T.tag(r[2]) == 'dict' and _single_char(r[3]) and 0 < len(r[2][1]) <= 64 \
+                and all(T.is_const(k_) and isinstance(k_[1], str) and len(k_[1]) == 1 for k_, _v in r[2][1]):
+            # look-up of ONE character in a constant table: the same case analysis as ALPHABET.index(c)
+            out = T.raise_('KeyError')
+            for k_, v_ in reversed(r[2][1]):
+                out = T.phi(T.eq(r[3], k_), v_, out)
+            r = out
     elif k == 'phi':
         r = T.phi(canon(t[1], memo), canon(t[2], memo), canon(t[3], memo))
     elif k in ('list', 'tuple'):
@@ -425,6 +504,167 @@ def _cmp_values(ob, xs, ys, what, where, same_term):
         same_term(ob, _tl(x), _tl(y), '%s, loop-carried variable #%d' % (what, i), where)
 
 
+def _under_path(t, facts=()):
+    """Every exit of a segment simplified under the conditions of its own path: case-analysis tails that the path has
+    already excluded are dropped - for a scalar (`if c not in TABLE: return` before `TABLE[c]`) and element-wise for a
+    comprehension over the same iterable as a universally quantified guard (`if not all(x in SET for x in s): return`
+    before `[TABLE.find(x) for x in s]`)."""
+    if not isinstance(t, tuple) or t is FALL or t == ('fall',):
+        return t
+    t = canon(t) if not facts else t
+    if T.tag(t) in ('tuple', 'list') and any(T.tag(x) == 'phi' for x in t[1]):
+        # exits that all return displays of one length are kept component-wise by the evaluator
+        return (t[0], tuple(_under_path(x, facts) if isinstance(x, tuple) else x for x in t[1]))
+    if T.tag(t) == 'phi':
+        c = _ascii_len(_elementwise(t[1], facts) if facts else t[1], facts)
+        return T.phi(c, _under_path(t[2], facts + (c,)), _under_path(t[3], facts + (T.not_(c),)))
+    if not facts:
+        return t
+    r = _drop_refused(t, facts)
+    return _ascii_len(_elementwise(r, facts), facts)
+
+
+def _ascii_strings(facts):
+    """strings x for which the path has established that every character is ASCII: ALL(ord(c) <= k for c in x), k <= 127"""
+    out = []
+    for f in facts:
+        for g in ([f] if not T.is_op(f, 'AND') else list(f[2:])):
+            if not (T.is_op(g, 'ALL') and len(g) == 3 and T.is_op(g[2], 'MAP') and g[2][5] == T.TRUE):
+                continue
+            m = g[2]
+            var, pred, it = m[2], (m[3][2] if T.is_op(m[3], 'BOOL') else m[3]), m[4]
+            for cj in ([pred] if not T.is_op(pred, 'AND') else list(pred[2:])):
+                # NOT(LT(k, ORD(var)))  i.e.  ord(c) <= k
+                if T.is_op(cj, 'NOT') and T.is_op(cj[2], 'LT') and T.is_const(cj[2][2]) and isinstance(cj[2][2][1], int) \
+                        and cj[2][2][1] <= 127 and cj[2][3] == ('op', 'ORD', var):
+                    out.append(it)
+                # LT(ORD(var), k)
+                if T.is_op(cj, 'LT') and cj[2] == ('op', 'ORD', var) and T.is_const(cj[3]) and isinstance(cj[3][1], int) and cj[3][1] <= 128:
+                    out.append(it)
+    return out
+
+
+def _ascii_len(t, facts):
+    """len(x.lower()) / len(x.upper()) is len(x) for a string known to be ASCII (case mapping changes the length of some
+    non-ASCII strings only)"""
+    xs = _ascii_strings(facts) if facts else []
+    if not xs or not isinstance(t, tuple):
+        return t
+    mapping = {}
+    for x in xs:
+        for nm in ('LOWER', 'UPPER'):
+            mapping[('op', 'LEN', ('op', nm, x))] = T.len_(x)
+    return T.subst(t, mapping)
+
+
+def _elementwise(t, facts):
+    guards = []
+    for f in facts:
+        for g in ([f] if not T.is_op(f, 'AND') else list(f[2:])):
+            if T.is_op(g, 'ALL') and len(g) == 3 and T.is_op(g[2], 'MAP') and g[2][5] == T.TRUE:
+                m = g[2]
+                p_ = m[3][2] if T.is_op(m[3], 'BOOL') else m[3]
+                if T.is_op(p_, 'OR') and all(T.is_op(d, 'EQ') for d in p_[2:]):
+                    guards.append((m[2], p_, m[4]))
+    if not guards:
+        return t
+    memo = {}
+
+    def rec(x):
+        if not isinstance(x, tuple) or not x:
+            return x
+        if id(x) in memo:
+            return memo[id(x)][1]
+        r = x
+        if T.is_op(x, 'MAP'):
+            body = x[3]
+            for var, pred, it in guards:
+                if x[4] == it:
+                    p2 = T.subst(pred, {var: x[2]}) if var != x[2] else pred
+                    body = _drop_refused(body, (p2,))
+            r = ('op', 'MAP', x[2], rec(body), rec(x[4]), x[5], x[6]) if len(x) == 7 else x
+        elif T.tag(x) == 'op':
+            r = ('op', x[1]) + tuple(rec(y) if isinstance(y, tuple) else y for y in x[2:])
+        elif T.tag(x) in ('tuple', 'list'):
+            r = (x[0], tuple(rec(y) for y in x[1]))
+        elif T.tag(x) == 'phi':
+            r = T.phi(rec(x[1]), rec(x[2]), rec(x[3]))
+        memo[id(x)] = (x, r)
+        return r
+    return rec(t)
+
+
+def _must_raise(x):
+    if not isinstance(x, tuple):
+        return False
+    if T.tag(x) == 'raise':
+        return True
+    if T.tag(x) == 'phi':
+        return _must_raise(x[2]) and _must_raise(x[3])
+    if T.tag(x) == 'op':
+        return any(_must_raise(y) for y in x[2:] if isinstance(y, tuple))
+    if T.tag(x) in ('tuple', 'list'):
+        return any(_must_raise(y) for y in x[1])
+    return False
+
+
+def _non_raising(t):
+    """the value on the alternatives where computing it does not raise"""
+    if t is None or not isinstance(t, tuple):
+        return t
+    t = canon(t)
+
+    def go(x):
+        if not isinstance(x, tuple):
+            return x
+        if T.tag(x) == 'phi':
+            if _must_raise(x[2]) and not _must_raise(x[3]):
+                return go(x[3])
+            if _must_raise(x[3]) and not _must_raise(x[2]):
+                return go(x[2])
+            return T.phi(x[1], go(x[2]), go(x[3]))
+        if T.tag(x) == 'op':
+            return ('op', x[1]) + tuple(go(y) if isinstance(y, tuple) and T.tag(y) in ('phi', 'op') else y for y in x[2:])
+        return x
+    return t if _must_raise(t) else go(t)
+
+
+def _drop_refused(t, facts):
+    """Remove the raising tail of a case analysis `x == k1 ? v1 : x == k2 ? v2 : ... : RAISE` when the facts say that x
+    is one of the k (a membership test that raised earlier in the same iteration)."""
+    if t is None or not facts or not isinstance(t, tuple):
+        return t
+    ors = []
+    for f in facts:
+        c = canon(f)
+        if T.is_op(c, 'OR') and all(T.is_op(d, 'EQ') for d in c[2:]):
+            ors.append(set(c[2:]))
+    if not ors:
+        return t
+    t = canon(t)
+
+    def go(x, negated):
+        if any(o <= negated for o in ors):
+            return None         # every alternative the guard allows has been excluded on the way here: unreachable
+        if T.tag(x) == 'phi':
+            c = x[1]
+            a = go(x[2], negated)
+            b = go(x[3], negated | {c})
+            if b is None:
+                return a
+            if a is None:
+                return b
+            return T.phi(c, a, b)
+        if T.is_op(x):
+            return ('op', x[1]) + tuple(go(y, negated) if isinstance(y, tuple) and T.tag(y) in ('phi', 'op') else y for y in x[2:]) \
+                if not any(isinstance(y, tuple) and T.tag(y) in ('phi', 'op') and go(y, negated) is None for y in x[2:]) else None
+        if any(o <= negated for o in ors):
+            return None         # every alternative the guard allows has been excluded on the way here: unreachable
+        return x
+    r = go(t, frozenset())
+    return t if r is None else r
+
+
 def _cmp_recs(ob, a, b, what, where, same_term):
     if [r[0] for r in a] != [r[0] for r in b]:
         ob.undecided('%s: statement structure differs from the reference (segments %s vs %s); term-level comparison not possible'
@@ -432,7 +672,8 @@ def _cmp_recs(ob, a, b, what, where, same_term):
         return
     for i, (ra, rb) in enumerate(zip(a, b)):
         if ra[0] == 'seq':
-            same_term(ob, ra[1], rb[1], '%s, segment %d: exits (returned value / rejecting returns and their conditions)' % (what, i), where)
+            same_term(ob, _under_path(ra[1]), _under_path(rb[1]),
+                      '%s, segment %d: exits (returned value / rejecting returns and their conditions)' % (what, i), where)
         else:
             ha, hb = ra[1], rb[1]
             ob.require(ha[0] == hb[0], '%s, loop %d: loop kind' % (what, i), where, expected=hb[0], found=ha[0])
@@ -440,5 +681,12 @@ def _cmp_recs(ob, a, b, what, where, same_term):
                 same_term(ob, ha[1], hb[1], '%s, loop %d: %s' % (what, i, 'iteration space' if ha[0] == 'for' else 'loop condition'), where)
             _cmp_values(ob, ra[2], rb[2], '%s, loop %d: value on entry' % (what, i), where, same_term)
             _cmp_recs(ob, ra[3], rb[3], '%s, loop %d body' % (what, i), where, same_term)
-            _cmp_values(ob, ra[4], rb[4], '%s, loop %d: value after one iteration' % (what, i), where, same_term)
+            # a value is compared on the iterations that get that far: alternatives excluded by what the body has already
+            # refused (`if c not in ALPHABET: raise` before `TABLE[c]`) are dropped on both sides
+            fa = ra[6] if len(ra) > 6 else ()
+            fb = rb[6] if len(rb) > 6 else ()
+            # ... and alternatives on which the iteration raises are not values at all (the raising exits of the body are
+            # compared as exits, with their conditions)
+            _cmp_values(ob, [_non_raising(_drop_refused(x, fa)) for x in ra[4]], [_non_raising(_drop_refused(x, fb)) for x in rb[4]],
+                        '%s, loop %d: value after one iteration' % (what, i), where, same_term)
             _cmp_recs(ob, ra[5], rb[5], '%s, loop %d else' % (what, i), where, same_term)
